@@ -138,6 +138,9 @@ extern "C" void wv_point(int kind, const void *obj)
 extern "C" void wv_event(int kind, const void *obj, long a, long b)
 {
   using namespace wapi;
+  static int dbg = getenv("WV_DEBUG") ? 1 : 0;
+  if (dbg)
+    fprintf(stderr, "EV kind=%d obj=%p a=%ld b=%ld\n", kind, obj, a, b);
   if (!g_capture)
     return;
 #ifdef VS_SHIM
@@ -324,7 +327,12 @@ static void fatal_handler(const char *what)
     }
   }
   else
+  {
+    // not inside a forked case (replay in-process, libFuzzer target): die loudly so that the caller
+    // (libFuzzer's crash handler) records the input
     fprintf(stderr, "scheduler: %s: %s\n", what, d.c_str());
+    abort();
+  }
   _exit(what[0] == 'd' ? 42 : 43);
 }
 #endif
@@ -745,6 +753,24 @@ bytes hash_synth(int alg, uint64_t len, uint32_t pat)
   bytes out(hash_len(alg));
   SynthBuf sb(len, pat);
   h->getFileHash(&sb, out.data());
+  delete h;
+  return out;
+}
+
+bytes hash_string_synth(int alg, uint64_t len, uint32_t pat)
+{
+  Hashmaster *h = hasher(alg);
+  bytes out(hash_len(alg));
+  u8_t *m = (u8_t *)malloc(len ? len : 1);
+  if (!m)
+  {
+    fprintf(stderr, "harness error: cannot allocate %llu bytes\n", (unsigned long long)len);
+    _exit(97);
+  }
+  for (uint64_t i = 0; i < len; i++)
+    m[i] = synth_byte(i, pat);
+  h->getStringHash(m, (u32_t)len, out.data());
+  free(m);
   delete h;
   return out;
 }
